@@ -7,7 +7,7 @@ Import only after mc.build.activate() (imports asynq at module top).
 A configuration (JSON-able dict) selects one decorated target:
 
   {"fam": "alru",  "target": "function"|"method", "maxsize": 1..3, "key": "default"|"norm"|"coarse", "body": "imm"|"block"}
-  {"fam": "acpi",  "sig": "ab"|"ac", "body": "imm"|"block"}
+  {"fam": "acpi",  "sig": "ab"|"ac"|"abc", "body": "imm"|"block"}     ("abc" = p(self, a, b=2, *, c=0), thorough tier only)
   {"fam": "alazy", "ttl": 0|5, "body": "imm"|"block"}
 
 A history is a tuple of indices into the configuration's operation table.  Every history is executed on fresh
@@ -148,6 +148,26 @@ def n_block(self, a, *, c=0):
     return rec
 
 
+def p_imm(self, a, b=2, *, c=0):
+    rec = ("p", self.slot, a, b, c)
+    CUR.runs.append(rec)
+    if a == RAISE_A and b == RAISE_2ND:
+        raise HErr(rec)
+    return rec
+
+
+def p_block(self, a, b=2, *, c=0):
+    w = CUR
+    rec = ("p", self.slot, a, b, c)
+    w.runs.append(rec)
+    got = yield CItem(w, rec)
+    if got != ("item", rec):
+        w.bad.append("batch item delivered %r" % (got,))
+    if a == RAISE_A and b == RAISE_2ND:
+        raise HErr(rec)
+    return rec
+
+
 def z_imm():
     w = CUR
     rec = ("z", len(w.runs) + 1)
@@ -172,7 +192,8 @@ def z_block():
 
 
 BODIES = {("f", "imm"): f_imm, ("f", "block"): f_block, ("m", "imm"): m_imm, ("m", "block"): m_block,
-          ("n", "imm"): n_imm, ("n", "block"): n_block, ("z", "imm"): z_imm, ("z", "block"): z_block}
+          ("n", "imm"): n_imm, ("n", "block"): n_block, ("p", "imm"): p_imm, ("p", "block"): p_block,
+          ("z", "imm"): z_imm, ("z", "block"): z_block}
 
 
 class HostBase(object):
@@ -257,14 +278,14 @@ def _spellings(sig):
     out = []
     for a_kw in (False, True):
         for a in A_VALUES:
-            if sig in ("f", "m"):
+            if sig in ("f", "m", "p"):
                 bforms = [None]
                 if not a_kw:
                     bforms += [("pos", B_DEFAULT), ("pos", B_OTHER)]
                 bforms += [("kw", B_DEFAULT), ("kw", B_OTHER)]
             else:
                 bforms = [None]
-            if sig == "f":
+            if sig in ("f", "p"):
                 cforms = [None, C_OTHER]
             elif sig == "n":
                 cforms = [None, C_DEFAULT, C_OTHER]
@@ -599,7 +620,7 @@ class AlruRT(Runtime):
 class AcpiRT(Runtime):
     def __init__(self, cfg):
         Runtime.__init__(self, cfg)
-        self.sig = {"ab": "m", "ac": "n"}[cfg["sig"]]
+        self.sig = {"ab": "m", "ac": "n", "abc": "p"}[cfg["sig"]]
         self.base_feats += ["method", "sig:" + cfg["sig"], "default-key"]
         self.ops = _call_ops(self.sig, (0, 1), lambda op: op.norm[1:])
         self.ncalls = len(self.ops)
